@@ -33,7 +33,8 @@ VALCODES = {
     'U': dict(ext=[0, 2**32 - 1, 5], mid=[7, 9, 11]),
     'Q': dict(ext=[0, 2**64 - 1, 5], mid=[7, 7 + 2**32, 7 + 2**63]),
     'F': dict(ext=[-0.5, 1.5, 2.0 ** 127], mid=[0.5, 1.5, 2.25]),
-    'O': dict(ext=[None, ('y', 1), 'x'], mid=['x', 'y', 'z']),
+    # (po: partially ordered values - frozensets: unequal, and neither smaller than the other, without any comparison raising)
+    'O': dict(ext=[None, ('y', 1), 'x'], mid=['x', 'y', 'z'], po=[frozenset({1}), frozenset({2}), frozenset({3})]),
     # (mid: strings that share their first bytes, a NUL among them: a comparison of a prefix, or one that stops at a
     #  NUL, would not tell them apart)
     's': dict(ext=[b'\x00' * 6, b'\xff' * 6, b'abcdef'], mid=[b'a\x00aaaa', b'a\x00aaab', b'a\x00bbbb']),
@@ -64,7 +65,7 @@ class Embedding:
         self.fam, self.which = fam, which
         kc = KEYCODES[fam[0]]
         vc = VALCODES[fam[1]]
-        self.keys = list(kc[which])
+        self.keys = list(kc.get(which, kc['mid']))
         self.vals = list(vc.get(which, vc['mid']))
         self.below, self.above = kc['below'], kc['above']
         self.krank = {self._h(k): i + 1 for i, k in enumerate(self.keys)}
